@@ -247,6 +247,11 @@ pub fn vx_rset_len(s: &BTreeSet<Revision>) -> (r: usize) { unimplemented!() }
 pub fn vx_str_concat(a: &str, b: &str) -> (r: String) ensures r@ == a@ + b@ { unimplemented!() }
 #[verifier::external_body]
 pub fn vx_str_clone(a: &String) -> (r: String) ensures r@ == a@ { unimplemented!() }
+/// RCV: the element of a by-value pass over a `Vec<(String, String)>`: owned copies of the two texts (verified from `vx_str_clone`)
+pub fn vx_spair_at(v: &Vec<(String, String)>, i: usize) -> (r: (String, String))
+    requires i < v.len(),
+    ensures r.0@ == v@[i as int].0@, r.1@ == v@[i as int].1@,
+{ (vx_str_clone(&v[i].0), vx_str_clone(&v[i].1)) }
 /// utils::is_array_descriptor = `starts_with("^")`: only a guard of the assumed `resolve_as`, the value is not constrained
 #[verifier::external_body]
 pub fn is_array_descriptor(key: &str) -> (r: bool) { unimplemented!() }
